@@ -147,7 +147,8 @@ def np_trapz(interp, y, x=None, dx=1.0, axis=-1):
     x = _arr(x, interp)
     A.require_dim_eq(x.shape[0], n, "trapz-shape")
     xr = x.reader()
-    return trapz_spec(lambda k: yr((k,)), lambda k: xr((k,)), n)
+    res = trapz_spec(lambda k: yr((k,)), lambda k: xr((k,)), n)
+    return sv.to_real(res) if is_conc(res) else res          # an empty sum (one sample point) is the float 0.0
 
 
 def np_delete(interp, a, obj, axis=None):
